@@ -153,6 +153,23 @@ def compare_fonts(chk, in_bytes, out_bytes, flags, ctx, replay, colr_input, buil
             for p in oracle_cmp.compare(exp, got, 4.0, grid=12, ctx=f"{ctx} U+{cp:04X} {label} vs input: "):
                 if "too small" not in p:
                     chk.violation(p, replay)
+        # an input with several palettes: the added OT-SVG table must follow the palette wherever the COLR paint does
+        # (var(--colorN, c)); compared once more with palette 1 selected on both sides
+        if colr_input and "CPAL" in fout and len(fout["CPAL"].palettes) > 1 and len(fin["CPAL"].palettes) > 1:
+            from . import oracle_colr, oracle_svg
+
+            oracle_colr.PALETTE_INDEX[0] = 1
+            oracle_svg.PALETTE_OVERRIDE[0] = [(c.red, c.green, c.blue) for c in fout["CPAL"].palettes[1]]
+            try:
+                ref1 = [_Exp(p) for p in oracle_cmp.colr_layers(fin, gin, cache_in)]
+                svg1, _ = oracle_otsvg.glyph_layers(fout, fout.getGlyphID(gout), {})
+            finally:
+                oracle_colr.PALETTE_INDEX[0] = 0
+                oracle_svg.PALETTE_OVERRIDE[0] = None
+            if svg1 is not None and not any(e.shape is None for e in ref1):
+                for p in oracle_cmp.compare(ref1, svg1, 4.0, grid=12, ctx=f"{ctx} U+{cp:04X} SVG vs input with palette 1 selected: "):
+                    if "too small" not in p:
+                        chk.violation(p, replay)
         if "CBDT" in fout and "--bitmaps" in flags:
             imgs = [bytes(s[gout].imageData) for s in fout["CBDT"].strikeData if gout in s]
             if not imgs:
